@@ -73,6 +73,11 @@ pub struct RDebug {
     r_ldbase: ElfAddr, /* Base address the linker is loaded at.  */
 }
 
+/// Upper bound for the size of a dynamic section we are willing to follow.
+const MAX_DYNAMIC_SECTION_SIZE: usize = 1024 * 1024;
+/// Upper bound for the number of `link_map` entries we are willing to follow.
+const MAX_LINK_MAP_ENTRIES: usize = 16 * 1024;
+
 pub fn write_dso_debug_stream(
     buffer: &mut Buffer,
     blamed_thread: i32,
@@ -85,7 +90,19 @@ pub fn write_dso_debug_stream(
         .get_program_header_address()
         .ok_or(SectionDsoDebugError::CouldNotFind("AT_PHDR in auxv"))? as usize;
 
-    let ph = PtraceDumper::copy_from_process(blamed_thread, phdr, SIZEOF_PHDR * phnum_max)?;
+    // Both values come from the (possibly corrupt) target or the caller: the table must
+    // have a representable size and be completely readable.
+    let ph_size = SIZEOF_PHDR
+        .checked_mul(phnum_max)
+        .ok_or(SectionDsoDebugError::CouldNotFind(
+            "a plausible AT_PHNUM in auxv",
+        ))?;
+    let ph = PtraceDumper::copy_from_process(blamed_thread, phdr, ph_size)?;
+    if ph.len() < ph_size {
+        return Err(SectionDsoDebugError::CouldNotFind(
+            "readable program headers",
+        ));
+    }
     let program_headers;
     #[cfg(target_pointer_width = "64")]
     {
@@ -108,7 +125,7 @@ pub fn write_dso_debug_stream(
         // Adjust base address with the virtual address of the PT_LOAD segment
         // corresponding to offset 0
         if ph.p_type == goblin::elf::program_header::PT_LOAD && ph.p_offset == 0 {
-            base -= ph.p_vaddr as usize;
+            base = base.wrapping_sub(ph.p_vaddr as usize);
         }
         if ph.p_type == goblin::elf::program_header::PT_DYNAMIC {
             dyn_addr = ph.p_vaddr;
@@ -121,7 +138,7 @@ pub fn write_dso_debug_stream(
         ));
     }
 
-    dyn_addr += base as ElfAddr;
+    dyn_addr = dyn_addr.wrapping_add(base as ElfAddr);
 
     let dyn_size = std::mem::size_of::<goblin::elf::Dyn>();
     let mut r_debug = 0usize;
@@ -131,12 +148,25 @@ pub fn write_dso_debug_stream(
     // DSOs loaded into the program. If this information is indeed available,
     // dump it to a MD_LINUX_DSO_DEBUG stream.
     loop {
+        // A dynamic section without DT_NULL must not be followed forever.
+        if dynamic_length >= MAX_DYNAMIC_SECTION_SIZE {
+            return Err(SectionDsoDebugError::CouldNotFind(
+                "DT_NULL in dynamic section",
+            ));
+        }
         let dyn_data = PtraceDumper::copy_from_process(
             blamed_thread,
-            dyn_addr as usize + dynamic_length,
+            (dyn_addr as usize).checked_add(dynamic_length).ok_or(
+                SectionDsoDebugError::CouldNotFind("dynamic section in address space"),
+            )?,
             dyn_size,
         )?;
         dynamic_length += dyn_size;
+        if dyn_data.len() < dyn_size {
+            return Err(SectionDsoDebugError::CouldNotFind(
+                "readable dynamic section",
+            ));
+        }
 
         // goblin::elf::Dyn doesn't have padding bytes
         let (head, body, _tail) = unsafe { dyn_data.align_to::<goblin::elf::Dyn>() };
@@ -162,6 +192,9 @@ pub fn write_dso_debug_stream(
     let debug_entry_data =
         PtraceDumper::copy_from_process(blamed_thread, r_debug, std::mem::size_of::<RDebug>())?;
 
+    if debug_entry_data.len() < std::mem::size_of::<RDebug>() {
+        return Err(SectionDsoDebugError::CouldNotFind("readable r_debug"));
+    }
     // goblin::elf::Dyn doesn't have padding bytes
     let (head, body, _tail) = unsafe { debug_entry_data.align_to::<RDebug>() };
     assert!(head.is_empty(), "Data was not aligned");
@@ -171,11 +204,20 @@ pub fn write_dso_debug_stream(
     let mut dso_vec = Vec::new();
     let mut curr_map = debug_entry.r_map;
     while curr_map != 0 {
+        // The list lives in the target and may be corrupt (e.g. cyclic).
+        if dso_vec.len() >= MAX_LINK_MAP_ENTRIES {
+            return Err(SectionDsoDebugError::CouldNotFind(
+                "end of the link_map list",
+            ));
+        }
         let link_map_data = PtraceDumper::copy_from_process(
             blamed_thread,
             curr_map,
             std::mem::size_of::<LinkMap>(),
         )?;
+        if link_map_data.len() < std::mem::size_of::<LinkMap>() {
+            return Err(SectionDsoDebugError::CouldNotFind("readable link_map"));
+        }
 
         // LinkMap is repr(C) and doesn't have padding bytes, so this should be safe
         let (head, body, _tail) = unsafe { link_map_data.align_to::<LinkMap>() };
